@@ -188,6 +188,7 @@ struct Store {
 	idx padding() const { return static_cast<idx>(mem.size() - pos.size()); }
 };
 
+constexpr unsigned WATCHDOG_SECONDS = 30;
 constexpr idx G = 8;  // guard elements before and after every storage block
 
 template<int D, std::size_t... I> auto mkext_impl(idx const* s, std::index_sequence<I...>) { return multi::extensions_t<D>{multi::iextension{s[I]}...}; }
@@ -250,7 +251,7 @@ template<class V> Cmp compare(V& v, Shape const& sh, std::vector<C> const& ref, 
 		if(tol == 0.0) { ok = g.real() == e.real() && g.imag() == e.imag(); if(ok) { continue; } }
 		double err = std::hypot(g.real() - e.real(), g.imag() - e.imag());
 		ok = err <= tol;  // false for NaN
-		if(ok) { if(err > maxerr) { maxerr = err; } continue; }
+		if(ok) { if(err / tol > maxerr) { maxerr = err / tol; } continue; }
 		if(!r.bad) { r.bad = true; r.k = k; r.exp = e; r.got = g; }
 	}
 	r.untouched = r.bad && all_mark;
@@ -292,7 +293,7 @@ static std::string sample_json(Cfg const& c, Group const& g, long calls, double 
 	std::vector<std::string> pairs;
 	for(std::size_t k = 0; k < got.size() && k < 6; ++k) { pairs.push_back(mc::J().s("at", tup_str(g.sh.t(static_cast<idx>(k)), g.sh.D)).s("got", c_str(got[k])).s("reference", c_str(ref[k])).str()); }
 	mc::J j; j.s("configuration", replay_of(c)).s("in_layout", lay_name[c.lin]).s("out_layout", c.mode == M_OOP ? lay_name[c.lout] : "in-place").n("elements", g.sh.N).n("transformed_points", g.Nt)
-		.n("library_calls", calls).s("comparison", g.exact ? "exact" : "tolerance 64*eps*N*sum|x|").d("max_abs_error", maxerr).s("example_input", input).raw("example_output", mc::jarr(pairs));
+		.n("library_calls", calls).s("comparison", g.exact ? "exact" : "tolerance 64*eps*N*sum|x|").d("max_error_over_tolerance", maxerr).s("example_input", input).raw("example_output", mc::jarr(pairs));
 	return j.str();
 }
 
@@ -411,7 +412,9 @@ static void run_group(std::vector<Cfg> const& cfgs, Group const& g, bool nofork)
 			close(pfd[0]); dup2(err, 2);
 			for(std::size_t i = next; i < cfgs.size(); ++i) {
 				mc::cur_set(key_of(cfgs[i], "?"), replay_of(cfgs[i]));
+				alarm(WATCHDOG_SECONDS);  // a configuration takes milliseconds; a wrong plan can make FFTW spin forever
 				Outcome o = run_config_any(cfgs[i], g);
+				alarm(0);
 				char head[96]; std::snprintf(head, sizeof head, "%zu\t%c\t%.17g\t%ld\t", i, o.status, o.maxerr, o.calls);
 				std::string line = std::string(head) + mc::jesc(o.symptom) + "\t" + (o.rec.empty() ? "-" : o.rec) + "\t" + (o.sample.empty() ? "-" : o.sample) + "\n";
 				if(!write_all(pfd[1], line)) { _exit(98); }
@@ -449,6 +452,7 @@ static void run_group(std::vector<Cfg> const& cfgs, Group const& g, bool nofork)
 			std::string symptom;
 			if(first_san != std::string::npos && (pa == std::string::npos || first_san < pa)) { symptom = ps != std::string::npos && ps <= pu ? "crash:address-sanitizer" : "crash:undefined-behaviour-sanitizer"; }
 			else if(pa != std::string::npos) { symptom = "crash:assertion-outside-the-library"; }
+			else if(WIFSIGNALED(st) && WTERMSIG(st) == SIGALRM) { symptom = "hang"; digest = "the configuration did not finish within " + std::to_string(WATCHDOG_SECONDS) + " s (normal: milliseconds)"; }
 			else if(WIFSIGNALED(st)) { symptom = "crash:signal-" + std::to_string(WTERMSIG(st)); }
 			else { symptom = "crash:exit-" + std::to_string(WEXITSTATUS(st)); }
 			mc::J j; describe(j, c); j.s("symptom", symptom).s("cause", WIFSIGNALED(st) ? "signal " + std::to_string(WTERMSIG(st)) : "exit " + std::to_string(WEXITSTATUS(st))).s("stderr", digest).s("detail", symptom + ": " + digest);
@@ -485,7 +489,7 @@ int main(int argc, char** argv) {
 		Group g(c.ext, c.mask, c.sign);
 		run_group({c}, g, nofork);
 		if(T.violating) { std::printf("REPLAY VIOLATION %s %s\n", T.last_key.c_str(), T.last_rec.c_str()); return 1; }
-		std::printf("REPLAY OK (%s; %ld library calls; max |got-ref| = %.3g)\n", T.rejected ? ("rejected: " + T.rejected_classes.begin()->first).c_str() : "correct", T.calls, T.maxerr);
+		std::printf("REPLAY OK (%s; %ld library calls; max |got-ref|/tolerance = %.3g)\n", T.rejected ? ("rejected: " + T.rejected_classes.begin()->first).c_str() : "correct", T.calls, T.maxerr);
 		return 0;
 	}
 
@@ -522,7 +526,7 @@ int main(int argc, char** argv) {
 	}
 	mc::R.add("evaluations", T.evaluations); mc::R.add("distinct_nontrivial", T.nontrivial); mc::R.add("rejected", T.rejected); mc::R.add("correct", T.correct); mc::R.add("violating", T.violating);
 	mc::R.add("library_calls", T.calls); mc::R.add("children", T.children); mc::R.add("child_deaths", T.child_deaths); mc::R.add("configurations_compared_exactly", T.exact_cfgs);
-	{ char b[160]; std::snprintf(b, sizeof b, "largest |got-reference| accepted under the tolerance in this shard: %.3g (tolerance 64*eps*N*sum|x|; exact == where all transformed extents are 1, 2 or 4)", T.maxerr); mc::R.note(b); }
+	{ char b[160]; std::snprintf(b, sizeof b, "largest |got-reference|/tolerance among accepted elements in this shard: %.3g (tolerance 64*eps*N*sum|x|; exact == where all transformed extents are 1, 2 or 4)", T.maxerr); mc::R.note(b); }
 	mc::R.note("distinct_nontrivial = configurations whose transform is not the identity (some transformed extent >= 2); all extents are >= 1 in every configuration");
 	{ int k = 0; for(auto const& [cls, n] : T.rejected_classes) { if(k++ >= 12) { break; } mc::R.note("rejected x" + std::to_string(n) + ": " + cls); } }
 	mc::R.emit(stdout);
